@@ -234,12 +234,12 @@ def run_unit(unit):
     return part
 
 
-def plan(tier):
+def plan(tier, seed=0):
     units = []
     depth = 3 if tier == 'thorough' else 2
     cap = 6000 if tier == 'thorough' else 200
     modes = ['checking', 'default', 'pretty', 'wrap']
-    for name, text in seeds.seeds(tier):
+    for name, text in seeds.seeds(tier, seed):
         # larger inputs have more proposals per state: scale the state cap
         c = cap if len(text) < 160 else max(30, cap * 160 // len(text))
         units.append((name, text, [], depth, c, modes))
@@ -252,14 +252,14 @@ def plan(tier):
 
 def main(tier):
     rep = common.Reporter(PROP, 'model_checking', tier)
-    units = plan(rep.tier)
+    units = plan(rep.tier, rep.seed)
     parts = common.pmap(run_unit, units, init=_init)
     for p in parts:
         rep.merge(p)
     rep.set('traces_validated_against_impl', 0)
     rep.set('evaluations', rep.coverage.get('proposals', 0))
     rep.set('distinct_nontrivial', rep.coverage.get('states', 0))
-    rep.set('seeds', len(seeds.seeds(rep.tier)))
+    rep.set('seeds', len(seeds.seeds(rep.tier, rep.seed)))
     rep.set('exhaustive', True)
     rep.set(
         'rule', 'every proposal of every enabled mutator (hierarchical '
